@@ -202,63 +202,75 @@ func coqPol(pi padInfo) string {
 	case "boring", "fromraw":
 		return "CPBoring"
 	case "always":
-		return "(CPAlways " + vh.Z(int64(pi.n)) + ")"
+		if pi.n < 0 {
+			return fmt.Sprintf("(CPAlways true %d)", -pi.n)
+		}
+		return fmt.Sprintf("(CPAlways false %d)", pi.n)
 	}
 	return "CPNone"
 }
 
-// items: the extension list of the UConn as model items. Non-padding
-// extensions are cut out of the observed extension block using Len() when the
-// marshal succeeded, or read through their own Read when it failed.
-func items(uc *tls.UConn, pads map[*tls.UtlsPaddingExtension]padInfo, block []byte, haveRaw bool) ([]string, bool) {
-	var out []string
-	off := 0
+// items: the extension list of the UConn as model items (lengths only; the
+// bytes are cut out of the data by the checker). bodies is filled through the
+// extensions' own Read only when there is no Raw to cut from.
+func items(uc *tls.UConn, pads map[*tls.UtlsPaddingExtension]padInfo, haveRaw bool) (out []string, total int, bodies []byte, ok bool) {
 	for _, e := range uc.Extensions {
-		if pe, ok := e.(*tls.UtlsPaddingExtension); ok {
+		if pe, isPad := e.(*tls.UtlsPaddingExtension); isPad {
 			pi, known := pads[pe]
 			if !known || pi.pol == "unknown" {
-				return nil, false
+				return nil, 0, nil, false
 			}
-			out = append(out, fmt.Sprintf("CPad %s %d %s", coqPol(pi), pi.plen, vh.Bool(pi.will)))
-			off += pe.Len()
+			obs := pe.Len()
+			if !haveRaw {
+				obs = 0
+			}
+			out = append(out, fmt.Sprintf("CPad %s %d %s %d", coqPol(pi), pi.plen, vh.Bool(pi.will), obs))
+			total += obs
 			continue
 		}
 		l := e.Len()
-		var body []byte
-		if haveRaw {
-			if off+l > len(block) {
-				return nil, false
-			}
-			body = block[off : off+l]
-		} else {
-			body = make([]byte, l)
+		if !haveRaw {
+			body := make([]byte, l)
 			n, _ := e.Read(body)
-			body = body[:n]
+			bodies = append(bodies, body[:n]...)
+			l = n
 		}
-		off += l
+		total += l
 		_, psk := e.(tls.PreSharedKeyExtension)
-		out = append(out, fmt.Sprintf("CFixed %s %s", vh.Bool(psk), hx(body)))
+		out = append(out, fmt.Sprintf("CFixed %s %d", vh.Bool(psk), l))
 	}
-	if haveRaw && off != len(block) {
-		return nil, false
-	}
-	return out, true
+	return out, total, bodies, true
 }
 
-// hx: a byte string as the Coq term (hx len 0x<hex>), see Corr/C05Corr.v
-func hx(b []byte) string {
-	if len(b) == 0 {
-		return "[]"
+// words: a byte string as "len [w1; w2; ...]%uint63", 7 bytes per primitive
+// integer, big-endian; decoded by pk in Corr/C05Corr.v
+func words(b []byte) string {
+	var sb strings.Builder
+	fmt.Fprintf(&sb, "%d [", len(b))
+	for i := 0; i < len(b); i += 7 {
+		j := i + 7
+		if j > len(b) {
+			j = len(b)
+		}
+		var w uint64
+		for _, x := range b[i:j] {
+			w = w<<8 | uint64(x)
+		}
+		if i > 0 {
+			sb.WriteByte(';')
+		}
+		fmt.Fprintf(&sb, "%d", w)
 	}
-	return fmt.Sprintf("(hx %d 0x%s)", len(b), vh.Hex(b))
+	sb.WriteString("]%uint63")
+	return sb.String()
 }
 
-func u16list(xs []uint16) string {
+func intlist[T uint8 | uint16](xs []T) string {
 	it := make([]string, len(xs))
 	for i, x := range xs {
 		it[i] = fmt.Sprint(x)
 	}
-	return vh.List(it)
+	return "[" + strings.Join(it, ";") + "]%uint63"
 }
 
 // emitCase records the correspondence case for one built UConn. fromRaw > 0:
@@ -269,29 +281,39 @@ func emitCase(c *vh.Ctx, kind, key string, uc *tls.UConn, berr error, pads map[*
 		c.Count("skipped-nohello")
 		return
 	}
-	var block []byte
-	obs := "OErr"
 	haveRaw := berr == nil
+	its, total, bodies, ok := items(uc, pads, haveRaw)
+	if !ok {
+		c.Fail(key, "runner: padding functor could not be classified", key, nil, nil)
+		return
+	}
+	var data []byte
 	if haveRaw {
-		p, ok := parseHello(h.Raw)
-		if !ok {
+		p, fine := parseHello(h.Raw)
+		if !fine {
 			c.Fail(key, "Hello.Raw is not a well-framed ClientHello", key, vh.Hex(h.Raw), "well-framed ClientHello")
 			return
 		}
-		block = p.extBlock
-		obs = "(OBytes " + hx(h.Raw) + ")"
+		if total != len(p.extBlock) {
+			c.Fail(key, "extension lengths (Len) do not add up to the emitted extension block", key, total, len(p.extBlock))
+			return
+		}
+		data = h.Raw
+	} else {
+		// same arrangement as a ClientHello, lengths left zero: only the pieces matter
+		data = append(data, 0, 0, 0, 0, 0, 0)
+		data = append(data, h.Random...)
+		data = append(data, 0)
+		data = append(data, h.SessionId...)
+		data = append(data, make([]byte, 2+2*len(h.CipherSuites)+1+len(h.CompressionMethods)+2)...)
+		data = append(data, bodies...)
 	}
-	its, ok := items(uc, pads, block, haveRaw)
-	if !ok {
-		c.Fail(key, "extension lengths (Len) do not tile the emitted extension block", key, vh.Hex(h.Raw), "sum of Len() == block length")
-		return
-	}
-	args := fmt.Sprintf("%d %s %s %s %s [%s] %s", h.Vers, hx(h.Random), hx(h.SessionId),
-		u16list(h.CipherSuites), hx(h.CompressionMethods), strings.Join(its, "; "), obs)
-	term := "CMarshal " + args
+	fr := "None"
 	if fromRaw > 0 {
-		term = fmt.Sprintf("CFromRaw %d %s", fromRaw, args)
+		fr = fmt.Sprintf("(Some %d)", fromRaw)
 	}
+	term := fmt.Sprintf("CM %s %d %d %s %s [%s] %s %s", fr, h.Vers, len(h.SessionId), intlist(h.CipherSuites),
+		intlist(h.CompressionMethods), strings.Join(its, "; "), vh.Bool(haveRaw), words(data))
 	c.Case(kind, term, key, nontrivial, map[string]any{"kind": kind, "key": key, "len": len(h.Raw), "err": fmt.Sprint(berr)})
 }
 
@@ -354,18 +376,16 @@ func sniLengths(c *vh.Ctx, id tls.ClientHelloID, base int) []int {
 			set[s] = true
 		}
 	} else {
-		for _, s := range []int{0, 1, 2, 63, 64, 65, 128, 253, 254, 255} {
+		for _, s := range []int{0, 1, 64, 255} {
 			set[s] = true
 		}
-		for _, target := range []int{254, 255, 256, 257, 506, 507, 508, 509, 510, 511, 512, 513} {
+		for _, target := range []int{255, 256, 507, 508, 511, 512} {
 			s := target - base + 1
 			if s >= 1 && s <= 255 {
 				set[s] = true
 			}
 		}
-		for i := 0; i < 3; i++ {
-			set[1+c.Rng.Intn(253)] = true
-		}
+		set[1+c.Rng.Intn(253)] = true
 	}
 	var out []int
 	for s := range set {
